@@ -473,8 +473,39 @@ def check(run: Run) -> None:
                                 "a lookup that runs while another thread registers a new record walks a hash table that is being rehashed", loc=fa_.loc(node_))
         run.sites(n_acc, 6, "m_entries accesses")
 
+    with run.obligation("C07.l", "K4", "a GraphBuilder is a reusable recipe whose compiled graph type is cached: every NON-CONST member that writes one of the fields the compiled "
+                        "type depends on (nodes_, edges_, global_state_, label_) or hands out a mutable handle into one of them (global_state() view, node_at()) discards "
+                        "the cached types - otherwise a builder that is reused after its seed / nodes were edited through the handle keeps building the OLD graph type "
+                        "while a fresh builder with the same content builds the new one"):
+        GR = "src/hgraph/runtime/graph.cpp"
+        FIELDS = ("nodes_", "edges_", "global_state_", "label_")
+        fi_ = run.tree.file(GR)
+        n_m = 0
+        for fd_ in fi_.funcs:
+            if fd_.body is None or fd_.cls != "GraphBuilder" or fd_.name in ("GraphBuilder", "~GraphBuilder", "invalidate_types"):
+                continue
+            head = fi_.text(fd_.params[1], fd_.body[0]) if getattr(fd_, "params", None) else ""
+            if re.search(r"\bconst\b", head):
+                continue
+            fa_ = R.parse(run, fd_, strict=False)
+            cn_ = R.Canon()
+            writes = [x for x in fa_.body.walk() if isinstance(x, C.Binary) and x.op in C._ASSIGN and cn_(x.l).split(".")[0].split("[")[0] in FIELDS]
+            writes += [c for c in R.calls(fa_) if isinstance(c.fn, C.Member) and cn_(c.fn.obj).split("[")[0] in FIELDS and
+                       c.fn.name in ("push_back", "emplace_back", "clear", "erase", "insert", "resize", "pop_back", "set")]
+            hands = [r for r in R.find(fa_, lambda x: isinstance(x, C.Return)) if r.e is not None and any(cn_(r.e).startswith(f) for f in FIELDS)]
+            if not writes and not hands:
+                continue
+            n_m += 1
+            run.count(1, "C07.l")
+            if not R.calls(fa_, "invalidate_types"):
+                what = "writes " + cn_(writes[0].l if isinstance(writes[0], C.Binary) else writes[0].fn)[:40] if writes else "hands out " + cn_(hands[0].e)[:40]
+                run.finding("C07.l", f"GraphBuilder::{fd_.name}:mutates-without-invalidating-types", f"GraphBuilder::{fd_.name} {what} without invalidate_types(): the builder's cached "
+                            "graph type (and the realisation snapshot handed to nested graphs) no longer reflects its content", loc=fa_.loc(fa_.body))
+        run.sites(n_m, 5, "mutating GraphBuilder members")
+
 
 VARIANTS = [
+    {"id": "l-seed-C07-8-seed-accessor-keeps-cached-types", "expect": "C07.l", "edits": [{"file": "src/hgraph/runtime/graph.cpp", "find": "GlobalStateView GraphBuilder::global_state() noexcept {\n  invalidate_types();\n  return global_state_.view();", "replace": "GlobalStateView GraphBuilder::global_state() noexcept {\n  return global_state_.view();"}]},
     {"id": "k-seed-C07-7-intern-hit-path-before-lock", "expect": "C07.k", "edits": [{"file": "src/hgraph/types/metadata/type_record_registry.cpp", "find": "        validate(definition);\n\n        std::lock_guard lock(m_mutex);\n        if (const auto found = m_entries.find(definition.key); found != m_entries.end())", "replace": "        validate(definition);\n\n        if (const auto found = m_entries.find(definition.key); found != m_entries.end())"}]},
     {"id": "h-seed-C07-6-injected-scheduler-supports-wall-clock-in-simulation", "expect": "C07.h", "edits": [{"file": "include/hgraph/types/static_node.h", "find": "                const bool supports_wall_clock = executor.valid() &&\n                                                 executor.schema()->mode == GraphExecutorMode::RealTime;", "replace": "                const bool supports_wall_clock = executor.valid() && view.evaluation_clock().valid();"}]},
     {"id": "j-seed-C07-5-global-state-ignores-live-seeded", "expect": "C07.j", "edits": [{"file": "src/hgraph/types/graph_wiring.cpp", "find": "  if (impl_->kind == WiringKind::TopLevel && impl_->live_seeded) {\n    if (GlobalState *state = GlobalContext::active_state()) {", "replace": "  if (impl_->kind == WiringKind::TopLevel) {\n    if (GlobalState *state = GlobalContext::active_state()) {"}]},
